@@ -284,6 +284,43 @@ def mvalidate(tspec, constants, mfile, work, parallel=8, timeout=3600):
     return n, drift
 
 
+def mvalidate_grouped(tspec, mfile, work, key, consts_of, limit_groups=64):
+    """M-level validation of scenario traces whose configuration (hence the TLC constants) changes per
+    scenario: records are grouped by key(header cfg); one TLC run per group.  key() returning None skips."""
+    groups = {}
+    cur = None
+    with open(mfile) as f:
+        for line in f:
+            if '"k":"hdr"' in line:
+                h = json.loads(line)
+                cur = key(h.get("cfg", {}))
+                if cur is not None and cur not in groups and len(groups) >= limit_groups:
+                    cur = None
+                if cur is not None and cur not in groups:
+                    groups[cur] = [line]
+                continue
+            if cur is not None:
+                groups[cur].append(line)
+    total, drift = 0, []
+
+    def one(item):
+        k, lines = item
+        if len(lines) < 2:
+            return 0, []
+        fn = os.path.join(work, "mgrp_%s.ndjson" % "_".join(str(x) for x in k))
+        with open(fn, "w") as g:
+            g.writelines(lines)
+        n, d = mvalidate(tspec, consts_of(k), fn, work, parallel=1)
+        os.remove(fn)
+        return n, d
+
+    with ThreadPoolExecutor(max_workers=8) as ex:
+        for n, d in ex.map(one, list(groups.items())):
+            total += n
+            drift += d
+    return total, drift, len(groups)
+
+
 # ------------------------------------------------------------------------------------------
 def clause_props(clause):
     head = clause.split(".", 1)[0]
